@@ -12,7 +12,7 @@ CLAIMS = {
  "C07": dict(engine="prefixed", design="6/C07", technique="TLC exhaustive model checking of spec/Prefixed.tla (impl-shaped prefix range vs reference window; B=3 and B=256) + replay of every (operation, state) through App's prefixed-storage API + TLC trace validation of random/directed real executions incl. a 65535 x 0xFF namespace",
    text="Exhaustive bounded model checking of the namespacing design in TLA+ (window exactness, disjointness, frame), every explored transition replayed through the public prefixed-storage API of App with raw dump and full view battery compared to TLC's answers, plus TLC validation of recorded real executions with arbitrary byte namespaces.",
    note="Bounded: adversarial path/key sets over bytes 0x00/0x01/0xFF, <= 3 operations exhaustively; the B=3 configuration covers the all-maximal prefix at design level and a directed trace covers it with real bytes. Trusted: TLC, MockStorage."),
- "C09": dict(engine="bank", design="6/C09", technique="TLC exhaustive model checking of spec/Bank.tla (impl-shaped coin-by-coin arithmetic vs declarative per-denomination totals; conservation) + replay of every (operation, state) on a real App with 128-bit scaled amounts + TLC trace validation of random real histories + the Chain specification (menu funds) for the balances and the Supply query seen by contracts inside transactions",
+ "C09": dict(engine="bank", design="6/C09", technique="TLC exhaustive model checking of spec/Bank.tla (impl-shaped coin-by-coin arithmetic vs declarative per-denomination totals; conservation) + replay of every (operation, state) on a real App with 128-bit scaled amounts + TLC trace validation of random real histories + the Chain specification (menu funds) for the balances and the Supply query seen by contracts inside transactions; thorough tier additionally: Apalache proves the conservation invariant inductive with unbounded amounts (spec/apalache/BankInd.tla, design level)",
    text="Exhaustive bounded model checking of the ledger in TLA+ (conservation, exact movement, fail-exactly-when, no-op on failure), every explored transition replayed through App's bank entry points with all three query kinds compared to TLC's state, plus TLC validation of long random histories recorded from the real code.",
    note="Bounded: 3-4 accounts, 2 denominations, coin lists up to 3 coins over small amounts, supply <= Cap exhaustively; amounts scaled linearly up to 2^128-1; random histories (5 accounts, 3 denominations, hundreds of operations) validated by TLC. Trusted: TLC, cosmwasm-std queries."),
 }
@@ -21,7 +21,7 @@ def _chain(pid, what, design):
     return dict(engine="chain", design=design,
       technique="TLC exhaustive enumeration of spec/Chain.tla + ChainGen.tla (transaction evaluator mirroring app.rs/wasm.rs, programs generated lazily in invocation order; declarative log-based invariants InvAtomic/InvEffective/InvReads/InvReply/InvEvents checked on every completed call) + replay of every generated call on a real App with scripted contracts, first-divergence attribution to the property's observables",
       text="Bounded exhaustive model checking of the transactional machine in TLA+ and conformance of the real code to it: every program TLC enumerates is executed on a real App (scripted contracts report what they are told and can read at every entry-point invocation) and compared with the specification's prediction. " + what,
-      note="Bounded by Fuel (contract invocations per transaction), MaxTx and the per-property menus in spec/mc/MC_Chain.tla; contracts are scripted (arbitrary effects/queries/failures, not arbitrary Rust); error texts, gas, msg_responses not compared. Trusted: TLC, cosmwasm-std mocks (MockApi, MockStorage), the harness's protobuf encoder for response data.")
+      note="Bounded by Fuel (contract invocations per transaction), MaxTx and the per-property menus in spec/mc/MC_Chain.tla; contracts are scripted (arbitrary effects/queries/failures, not arbitrary Rust); error texts, gas, msg_responses and the attributes of native modules' events not compared (native events by type and position only). Trusted: TLC, cosmwasm-std mocks (MockApi, MockStorage), the harness's protobuf encoder for response data.")
 
 CLAIMS.update({
  "C01": _chain("C01", "Focus: Ok/Err, responses per message, full post-state, raw storage byte-identical after Err; the repository's own tests validated as traces against spec/Monitor.tla (a failing entry point leaves the storage digest unchanged).", "6/C01"),
